@@ -18,7 +18,7 @@ LEVEL_TEXT = (
     'computation.')
 
 FLOORS = {'C02-R1': 16, 'C02-R2': 12, 'C02-R3': 9, 'C02-R4': 4, 'C02-R5': 10, 'C01-R1': 3, 'C01-R2': 3,
-          'C01-R3': 12, 'C01-R4': 8, 'C01-R5': 3, 'C01-R7': 5, 'C01-R9': 3, 'C01-R10': 4, 'C10-R1': 8, 'C10-R3': 5}
+          'C01-R3': 12, 'C01-R4': 8, 'C01-R5': 3, 'C01-R7': 5, 'C01-R9': 3, 'C01-R10': 4, 'C10-R1': 8, 'C10-R3': 5, 'C05-R3': 2, 'C05-R4': 2, 'C05-R5': 3}
 
 
 def r1_polarity(ctx, cb):
@@ -431,6 +431,14 @@ def run(ctx):
     # the iff presupposes that every reachable in-boundary state is evaluated: C01's coverage rules
     import c01
     c01.coverage_rules(ctx, F)
+    # "once a check completes": the market may close only when no worker holds or can still receive work - the
+    # accounting of active workers in JobBroker::pop (a worker that was handed a batch counts as running again)
+    import c05
+    ctx.doc('C05-R3', 'after Condvar::wait every path to return re-tests job_batches.pop()')
+    ctx.doc('C05-R4', 'open_count decremented before the wait and incremented after it on every path')
+    ctx.doc('C05-R5', 'on open_count == 0 the worker notifies all and closes the market before returning')
+    with ctx.rule('C05-R3', 'pop'):
+        c05.r3_r4_r5_pop(ctx, F)
     # "DFS with symmetry" is one of the quantified strategies: its verdicts are exact only if the
     # representative is one consistent permutation of the state and keys the visited set (C10)
     import c10
